@@ -356,13 +356,17 @@ def dump_run(fp, queries):
     for k in sorted(fp.level_shells):
         levels.append(sorted((dump_shell(s) for s in fp.level_shells[k]), key=lambda t: (t[0], t[1])))
     qs = []
-    for q in queries:
+    for qi, q in enumerate(queries):
         kw = {}
         if q.get("mask"):
             kw["atom_mask"] = set(q["mask"])
-        r = attempt(lambda: fp.get_fingerprint_at_level(q.get("level"), bits=q.get("bits"), **kw), dump_fp)
+        lvl = q.get("level")
+        if qi % 2 == 1 and isinstance(lvl, int):
+            # every second query asks with a NumPy integer (a level taken from np.arange or an int array is one), alternating widths
+            lvl = (np.int64, np.int32, np.int16)[(qi // 2) % 3](lvl)
+        r = attempt(lambda: fp.get_fingerprint_at_level(lvl, bits=q.get("bits"), **kw), dump_fp)
         try:
-            sh = sorted((dump_shell(s) for s in fp.get_shells_at_level(q.get("level"), **kw)), key=lambda t: (t[0], t[1]))
+            sh = sorted((dump_shell(s) for s in fp.get_shells_at_level(lvl, **kw)), key=lambda t: (t[0], t[1]))
         except Exception as e:  # noqa: BLE001
             sh = {"err": exc_enum(e)}
         qs.append({"fp": r, "shells": sh})
